@@ -191,5 +191,106 @@ theorem runOnce_TR {g G : Grammar} {p : Opt.Pass} (hp : Allowed F p) (hinv : Inv
   · exact hsqB (hsq rfl) a e he
   · exact inlineSilent_TR hinv a e he
 
+/-! ### `runStep` and the fold over the passes -/
+
+/-- what the two matcher passes have to provide (trivially, when `F` switches them off) -/
+structure Builders (F : Feat) (sg : String → Option (String × Nat)) (g : Grammar) : Prop where
+  sqSem : F.squash = true → SquashSem
+  skSem : F.skip = true → ∀ G, SkipSem G
+  sqB : F.squash = true → ∀ G, G.usets = g.usets → Inv F sg G → ∀ a e, AllN (NodeOK sg) e →
+    TR F G a e (Opt.mapBottomUp (Opt.squashChoice g) e)
+  skB : F.skip = true → ∀ G, Inv F sg G → ∀ a k e, (a = true ∨ NoTrivia G) → AllN (NodeOK sg) e →
+    AllN (NotPOK G) e → TR F G a e (Opt.mapTopDown (Opt.skipPass G.rules 200) k e)
+  npB : F.skip = true → ∀ G (i : Nat) (h : i < G.rules.length) (b' : Expr), Inv F sg G →
+    (∀ b, TR F G (ruleAtomic G.rules[i].name G.rules[i].mod b) G.rules[i].body b') →
+    ∀ r ∈ (setBody G i h b').rules, AllN (NotPOK (setBody G i h b')) r.body
+
+theorem runStep_sound {g : Grammar} {p : Opt.Pass} (hp : Allowed F p) (B : Builders F sg g) :
+    ∀ (d i : Nat) (rules rules' : List Rule), rules.length - i = d →
+      Inv F sg { g with rules := rules } → Opt.runStep g p i rules = some rules' →
+      EquivG { g with rules := rules } { g with rules := rules' } ∧ Inv F sg { g with rules := rules' } := by
+  intro d
+  induction d with
+  | zero =>
+    intro i rules rules' hd hinv h
+    rw [Opt.runStep] at h
+    have : ¬ i < rules.length := by omega
+    simp only [this, ↓reduceDIte, Option.some.injEq] at h
+    subst h
+    exact ⟨EquivG.refl _, hinv⟩
+  | succ d ih =>
+    intro i rules rules' hd hinv h
+    rw [Opt.runStep] at h
+    have hi : i < rules.length := by omega
+    simp only [hi, ↓reduceDIte] at h
+    by_cases hskip : (rules[i].kind == RuleKind.builtin ||
+        (p.atomicOnly && !Opt.isAtomicRule rules rules[i])) = true
+    · rw [if_pos hskip] at h
+      exact ih (i + 1) rules rules' (by omega) hinv h
+    · rw [if_neg hskip] at h
+      cases hro : Opt.runOnce g rules p rules[i].body with
+      | none => rw [hro] at h; exact absurd h (by simp)
+      | some b =>
+        rw [hro] at h
+        simp only [] at h
+        let G : Grammar := { g with rules := rules }
+        have hiG : i < G.rules.length := hi
+        have hmem : rules[i] ∈ G.rules := List.getElem_mem hi
+        have hbody := hinv.nodes _ hmem
+        have hflag : p.atomicOnly = true → (∀ b0, ruleAtomic rules[i].name rules[i].mod b0 = true) ∨ NoTrivia G := by
+          intro hao
+          have : Opt.isAtomicRule rules rules[i] = true := by
+            simp only [Bool.or_eq_true, Bool.and_eq_true, Bool.not_eq_true', not_or, not_and,
+              Bool.not_eq_false] at hskip
+            exact hskip.2 hao
+          exact isAtomic_flag hinv _ hmem this
+        have htr : ∀ b0, TR F G (ruleAtomic rules[i].name rules[i].mod b0) rules[i].body b := by
+          intro b0
+          refine runOnce_TR (g := g) (G := G) hp hinv (fun hF => B.sqB hF G rfl hinv)
+            (fun hF => B.skB hF G hinv) ?_ hbody (fun hF => hinv.notp hF _ hmem) hro
+          intro hao
+          rcases hflag hao with h1 | h1
+          · exact Or.inl (h1 b0)
+          · exact Or.inr h1
+        have hgr : GR F G (setBody G i hiG b) := GR_setBody G i hiG b htr
+        have heq : EquivG G (setBody G i hiG b) :=
+          equivG_of_GR hgr B.sqSem (fun hF => B.skSem hF G)
+        have hinv' : Inv F sg (setBody G i hiG b) :=
+          Inv_setBody hinv i hiG b ((htr true).allN hinv.lookup_nodes hbody) (htr true).totalBody
+            (fun hF => B.npB hF G i hiG b hinv htr)
+        have := ih (i + 1) (rules.set i { rules[i] with body := b }) rules' (by simp; omega) hinv' h
+        exact ⟨heq.trans this.1, this.2⟩
+
+theorem passes_sound {g : Grammar} (B : Builders F sg g) :
+    ∀ (passes : List Opt.Pass), (∀ p ∈ passes, Allowed F p) → ∀ (rules rules' : List Rule),
+      Inv F sg { g with rules := rules } →
+      passes.foldl (fun acc p => acc.bind fun rs => Opt.runStep g p 0 rs) (some rules) = some rules' →
+      EquivG { g with rules := rules } { g with rules := rules' } ∧ Inv F sg { g with rules := rules' } := by
+  intro passes
+  induction passes with
+  | nil =>
+    intro _ rules rules' hinv h
+    simp only [List.foldl_nil, Option.some.injEq] at h
+    subst h
+    exact ⟨EquivG.refl _, hinv⟩
+  | cons p rest ih =>
+    intro hp rules rules' hinv h
+    simp only [List.foldl_cons, Option.bind_some] at h
+    cases h1 : Opt.runStep g p 0 rules with
+    | none =>
+      rw [h1] at h
+      have : ∀ (l : List Opt.Pass),
+          l.foldl (fun acc p => acc.bind fun rs => Opt.runStep g p 0 rs) (none : Option (List Rule)) = none := by
+        intro l; induction l with
+        | nil => rfl
+        | cons _ _ ih => simpa using ih
+      rw [this] at h
+      exact absurd h (by simp)
+    | some rules1 =>
+      rw [h1] at h
+      have s1 := runStep_sound (hp p (by simp)) B _ 0 rules rules1 rfl hinv h1
+      have s2 := ih (fun q hq => hp q (by simp [hq])) rules1 rules' s1.2 h
+      exact ⟨s1.1.trans s2.1, s2.2⟩
+
 end OptS
 end Pest
